@@ -25,7 +25,7 @@ def shards(tier):
 
 
 def required_classes(tier):
-    return ["add:generic", "add:P=Q", "add:P=-Q", "add:identity", "multiply:n=0", "multiply:n<0", "multiply:n>=N", "multiply:random", "multiply:endomorphism-eigenvalue", "add:near-x", "inv:small-and-structured", "multiply:hash-colliding", "add:shared-coordinate", "add:hash-colliding",
+    return ["add:generic", "add:P=Q", "add:P=-Q", "add:identity", "multiply:n=0", "multiply:n<0", "multiply:n>=N", "multiply:random", "soak:distinct-scalars", "multiply:endomorphism-eigenvalue", "add:near-x", "inv:small-and-structured", "multiply:hash-colliding", "add:shared-coordinate", "add:hash-colliding",
             "privtopub", "W4:pairs", "W4:scalars", "constants"]
 
 
@@ -155,6 +155,22 @@ def real_curve(rec, s):
                 continue
             rec.case(cls, ("mul", pt, n), sample={"fn": "multiply", "point": pt, "n": n})
             call(s.multiply, pt, n)
+    # soak: distinct scalars and distinct inverses beyond any bounded table, first ones re-probed
+    if rec.shard == 2 or not quick:
+        from .common import soak_size, soak_then_reprobe
+        Gp = mvals[0]
+        first = [rng.getrandbits(256) for _ in range(3)]
+
+        def distinct_calls():
+            j = 0
+            while True:
+                j += 1
+                n_ = (0x9E3779B97F4A7C15 * j + (j << 130) + 12345) % N
+                yield (lambda n_=n_: (call(s.multiply, Gp, n_), call(s.inv, n_, P), call(s.inv, n_ + 1, N)))
+        soak_then_reprobe(rec, "distinct-scalars", [lambda n_=n_: (call(s.multiply, Gp, n_), call(s.inv, n_ % P or 1, P), call(s.privtopub, (n_ % N or 1).to_bytes(32, "big"))) for n_ in first],
+                          distinct_calls(), soak_size(["py_ecc.secp256k1.secp256k1"]))
+    else:
+        rec.case("soak:distinct-scalars", None, nontrivial=False)
     # privtopub
     try:
         from cryptography.hazmat.primitives.asymmetric import ec as cec
